@@ -469,11 +469,22 @@ def _reinit(repo, col, fi, ex):
     col.check(ok, R, fi, "cumsum_ncomp = cumsum_leading_zero(updated ncomp_per_branch)", "", f"cumsum is {cs.short(80) if cs else None}", node=fi.node)
     ii = vals.get("_internal_node_inds")
     ok = ii is not None and ii.op == "mcall" and ii.name == "arange" and ii.args[1].op == "sub" and ii.args[1].args[0].key() == cs.key() if cs is not None and ii is not None else False
+    if ok:
+        last = ii.args[1].args[1]
+        ok = (last.op == "unary" and last.name == "USub" and last.args[0].op == "const" and last.args[0].name == 1) or (last.op == "const" and last.name == -1)
     col.check(ok, R, fi, "_internal_node_inds = arange(total number of compartments)", "np.arange(cumsum_ncomp[-1])",
               f"is {ii.short(80) if ii else None}", node=fi.node)
     nc = vals.get("ncomp")
     ok = nc is not None and T.find(nc, lambda x: x.op == "mcall" and x.name == "max") is not None
     col.check(ok, R, fi, "ncomp = max over branches", "int(np.max(ncomp_per_branch))", f"ncomp is {nc.short(60) if nc else None}", node=fi.node)
+    # the new rows carry what the old rows carried: every column written on the new rows before they are spliced in is computed from
+    # the branch's own rows (its average, cast back to the column's kind) or from the geometry conventions -- never a constant
+    consts = [s_ for s_ in ex.stores if s_.kind == "sub" and s_.value.op == "const" and s_.value.name is not None and
+              s_.base.op in ("mcall", "call", "phi", "sub") and T.find(s_.base, lambda x: x.op == "mcall" and x.name == "concat") is not None and
+              T.find(s_.base, lambda x: x.op == "mcall" and x.name == "mean") is not None]
+    col.check(not consts, R, fi, "no column of the new rows is set to a constant", "averaged rows, cast back to the column types",
+              f"`{unparse(consts[0].node)[:70] if consts else ''}` writes a constant into the rows of the re-discretised branch: a branch without a channel "
+              f"gets its presence flag set (or loses it), the branch no longer carries what it carried", node=consts[0].node if consts else fi.node)
     # refusals
     asserts = [unparse(n.test) for n in walk_no_nested(fi.node) if isinstance(n, ast.Assert)]
     ok = any("network" in a for a in asserts) and any("cell" in a and "_branches_in_view" in a for a in asserts)
